@@ -22,8 +22,8 @@ FIRST_WAVE_MISSED = {
     "C19_b": "same harness error as C19_a",
 }
 FIRST_WAVE_MISSED.update({
-    "C01_c": "every frame arrived in one piece: the probe now also arrives as two TCP segments (header cut, payload cut) with another client's frame between them",
-    "C01_d": "one manager per process: a second manager instance with its own population runs next to the explored one (state shared between instances shows up)",
+    "C01_c": "every module id had one connection: two connections sharing one module id (both allow multiple instances), each with its own subscriptions, were added to the population",
+    "C01_d": "every frame arrived in one piece: NET now models TCP segments and recv without MSG_WAITALL; the probe also arrives as two segments (header cut, payload cut) with another client's frame in between",
     "C03_d": "control requests came only from freshly connected modules: SUBSCRIBE / UNSUBSCRIBE / PAUSE / RESUME / CONNECT / SET_NAME / READY are now also sent from modules that already hold subscriptions, are subscribed to all, or are loggers",
     "C04_c": "aliases had the same target in every program of one process: one alias now changes its target from program to program",
     "C05_d": "every module sent CONNECT first: a client that publishes before CONNECT (and connects later) was added",
@@ -40,9 +40,30 @@ FIRST_WAVE_MISSED.update({
     "C19_d": "descriptor numbers were never reused: NET now hands out the lowest free descriptor as the kernel does, and a leave-then-connect sequence reuses one",
     "C10_c": "first run: the patch no longer applied after the timecode-header repair touched the same lines; ported to the repaired tree (patch_head.diff) and caught",
 })
+FIRST_WAVE_MISSED.update({
+    "C02_e": "the client under test was the only holder of its module id: a second connection sharing the id (allow_multiple), with fixed subscriptions of its own, now runs next to it in half of the configurations",
+    "C04_e": "every program was built into a fresh directory: a second build into the same directory after only IMPORTED files were edited (root file untouched) was added",
+    "C05_e": "the logger was always writable: 'logger not writable in this round' is now one of the environment deviations (the manager's wait-then-write path)",
+    "C07_f": "NOT CAUGHT, and not claimed: the change publishes a CLIENT_INFO about the leaver after its CLIENT_CLOSED and lists it in ACTIVE_CLIENTS; none of the statement's clauses (recipient at once, id/name reusable, exactly one CLIENT_CLOSED, others' delivery) is contradicted. The new asynchronous-death family counts such frames as an observation in the evidence (0 on the unchanged tree, 136 with this change) without judging them",
+    "C08_e": "every case used a fresh Client: the same Client object now connects a second time (after a reset, an end of stream, or disconnect()) in every initial subscription state",
+    "C08_f": "definitions never changed during a run: a type is now redefined through @message_def between reads (looked up before or not)",
+    "C09_f": "ctypes arrays were only offered with the field's own element type: arrays of every other element type are now carriers (values in / out of the field's domain)",
+    "C10_e": "the timecode header always carried a non-zero stamp: header profiles unstamped (0, n), zero, maximal and edge-valued base fields were added",
+    "C11_e": "type names never changed meaning inside one process: one name now stands for structs of alignment 1, 2, 4, 8 in every order of compilation",
+    "C11_f": "the gcc-checked alphabet had only sized spellings: long / unsigned long / short / int / long long / unsigned short were added (C04 caught it from the start)",
+    "C13_e": "first run: harness error (the generated Python file was not importable) - an unreadable output is now a finding; and the struct behind a field type is now edited while the message text stays",
+    "C13_f": "no definition name contained an emitter's own prefix: names with hash_, MT_, MDF_, mid_, defines_ next to their shortened forms were added",
+    "C16_e": "output directories were absolute in both runs: the second run now names the output directory by a relative path",
+    "C17_e": "first run: harness error (state kept on a class leaked from one execution into the next and the replay diverged): mutable class attributes / module globals of the data-logger modules are now restored between executions, the leak is then found inside one execution (two quicklogger data sets, restart, sub-division)",
+    "C17_f": "data sets always listed their types in adjacent slots and the oracle used the data set's own filtered list: the 32-slot array now has a hole and the oracle selects by the configured types",
+    "C18_e": "all published types lay in the lower half of the table: types 4999 / 5000 / 5001 / 9998 / 9999 and runs of high types were added",
+    "C18_f": "no delivery failed inside a reporting interval: a subscriber is now reported not writable while its type is published (the manager's own FAILED_MESSAGE is traffic as well)",
+    "C19_e": "loggers only left by DISCONNECT: connected loggers are now reset / closed, paired with other modules' control frames in both service orders, with two loggers in both hash orders",
+})
 NEUTRALIZED = {"C17_b": "the change re-ordered the two Event operations of the hand-off; the second data-logger repair made the pair atomic under a lock, so the re-ordering no longer breaks the property (the demonstration passes on the repaired tree)"}
 rows = []
-for d in sorted(glob.glob(os.path.join(HERE, "seeded", "*_[abcd]"))):
+titles = {}
+for d in sorted(glob.glob(os.path.join(HERE, "seeded", "*_[abcdef]"))):
     sid = os.path.basename(d)
     ev = json.load(open(os.path.join(d, "eval.json"))) if os.path.exists(os.path.join(d, "eval.json")) else {}
     notes = open(os.path.join(d, "notes.md")).read() if os.path.exists(os.path.join(d, "notes.md")) else ""
@@ -66,7 +87,10 @@ for d in sorted(glob.glob(os.path.join(HERE, "seeded", "*_[abcd]"))):
         "strengthening": FIRST_WAVE_MISSED.get(sid, ""),
     }
     json.dump(meta, open(os.path.join(d, "meta.json"), "w"), indent=1)
+    title = (notes.strip().splitlines() or [""])[0].lstrip("# ").strip()
+    title = re.sub(r"^C\d\d seed [ab]\s*[-:]\s*", "", title)[:110]
+    titles[sid] = title
     rows.append((sid, prop, "n/a (neutralized)" if sid in NEUTRALIZED else "yes" if all(detected.values()) and detected else "NO", "first run missed - " + FIRST_WAVE_MISSED[sid] if sid in FIRST_WAVE_MISSED else "caught by the check as first built"))
-print("| seed | caught now | history |\n|---|---|---|")
+print("| seed | the change | caught now | history |\n|---|---|---|---|")
 for sid, prop, det, hist in rows:
-    print(f"| {sid} | {det} | {hist} |")
+    print(f"| {sid} | {titles[sid]} | {det} | {hist} |")
